@@ -67,6 +67,7 @@ type fakeDaemon struct {
 	mu                 sync.Mutex
 	up                 bool
 	connected          bool // the D-Bus connection of the current session is alive
+	pushOnFree         bool // a browse result is delivered while the browser is being freed
 	failSetup          int  // number of Setup calls that still fail although up (unavailable for n retries)
 	failMode           string
 	session            int // incremented by every successful Setup
@@ -138,6 +139,19 @@ func (d *fakeDaemon) ServiceBrowserNew(addChan, removeChan chan avahi.Service, i
 	return b, nil
 }
 func (d *fakeDaemon) ServiceBrowserFree(r avahi.ServiceBrowserInterface) {
+	// browse results arrive at any time: also while the client is freeing the browser
+	d.mu.Lock()
+	push := d.pushOnFree
+	d.mu.Unlock()
+	if b, ok := r.(*fakeBrowser); ok && push && b.add != nil {
+		func() {
+			defer func() { _ = recover() }()
+			select {
+			case b.add <- avahi.Service{Name: "remote-2", Type: "_ship._tcp", Domain: "local", Interface: 1}:
+			case <-time.After(2 * time.Second):
+			}
+		}()
+	}
 	d.mu.Lock()
 	defer d.mu.Unlock()
 	if b, ok := r.(*fakeBrowser); ok {
@@ -243,12 +257,13 @@ type avOp struct {
 }
 
 type C19Scn struct {
-	ID  string `json:"id"`
-	Ops []avOp `json:"ops"`
+	ID         string `json:"id"`
+	Ops        []avOp `json:"ops"`
+	PushOnFree bool   `json:"push_on_free"`
 }
 
 func genC19(r *vc.Rand) *C19Scn {
-	sc := &C19Scn{}
+	sc := &C19Scn{PushOnFree: r.Chance(1, 3)}
 	n := r.Range(2, 12)
 	txtN := 0
 	shut := false
@@ -300,7 +315,7 @@ func txtOf(n int) []string {
 
 func runC19(t *testing.T, sc *C19Scn) (res c19Result) {
 	res.BubbleErr = simkit.Bubble(t, func(t *testing.T) {
-		d := &fakeDaemon{up: true, t0: time.Now(), shutdownReturnedAt: -1, services: map[string]avahi.Service{}}
+		d := &fakeDaemon{pushOnFree: sc.PushOnFree, up: true, t0: time.Now(), shutdownReturnedAt: -1, services: map[string]avahi.Service{}}
 		for i := 1; i <= 3; i++ {
 			name := fmt.Sprintf("remote-%d", i)
 			var txt [][]byte
